@@ -16,6 +16,7 @@ import (
 	"strings"
 	"sync"
 	"testing"
+	"time"
 )
 
 // Sig is the structured signature of a failing case; known_findings.json
@@ -44,18 +45,19 @@ type Rec struct {
 	outF   *os.File
 	curF   *os.File
 
-	mu       sync.Mutex
-	evals    int64
-	fails    int64
-	classes  map[string]int64
-	events   map[string]int64
-	samples  []any
-	sigSeen  map[string]int
-	suites   map[string]int64
-	exh      map[string]bool
-	t        *testing.T
-	maxSamp  int
-	notes    []string
+	mu        sync.Mutex
+	suiteSecs map[string]float64
+	evals     int64
+	fails     int64
+	classes   map[string]int64
+	events    map[string]int64
+	samples   []any
+	sigSeen   map[string]int
+	suites    map[string]int64
+	exh       map[string]bool
+	t         *testing.T
+	maxSamp   int
+	notes     []string
 }
 
 // Open creates the recorder from the environment set by the driver. Without a
@@ -95,11 +97,11 @@ func Open(t *testing.T, prop string) *Rec {
 	return r
 }
 
-func (r *Rec) Quick() bool    { return r.Tier != "thorough" }
-func (r *Rec) Race() bool     { return r.Mode == "race" }
-func (r *Rec) Replay() bool   { return r.only != "" }
-func (r *Rec) NBatch() int    { return r.nbatch }
-func (r *Rec) Batch() int     { return r.batch }
+func (r *Rec) Quick() bool  { return r.Tier != "thorough" }
+func (r *Rec) Race() bool   { return r.Mode == "race" }
+func (r *Rec) Replay() bool { return r.only != "" }
+func (r *Rec) NBatch() int  { return r.nbatch }
+func (r *Rec) Batch() int   { return r.batch }
 
 // N picks a case count by tier; in race mode counts are divided by raceDiv (>=1).
 func (r *Rec) N(quick, thorough int) int {
@@ -140,6 +142,15 @@ func (r *Rec) Suite(suite string, n int, fn func(c *Case)) {
 			return
 		}
 	}
+	t0 := time.Now()
+	defer func() {
+		r.mu.Lock()
+		if r.suiteSecs == nil {
+			r.suiteSecs = map[string]float64{}
+		}
+		r.suiteSecs[suite] += time.Since(t0).Seconds() // informational only (never part of a verdict)
+		r.mu.Unlock()
+	}()
 	for i := 0; i < n; i++ {
 		if onlyIdx >= 0 {
 			if i != onlyIdx {
@@ -295,7 +306,7 @@ func (r *Rec) Close() {
 			"batch": r.batch, "nbatch": r.nbatch,
 			"evaluations": r.evals, "fails": r.fails,
 			"classes": r.classes, "events": r.events, "samples": r.samples,
-			"sigs": sigs, "suites": r.suites, "exhaustive": exh, "notes": r.notes,
+			"sigs": sigs, "suites": r.suites, "exhaustive": exh, "notes": r.notes, "suite_seconds": r.suiteSecs,
 		},
 	}
 	if r.outF != nil {
